@@ -439,6 +439,15 @@ def search(func, candidate, seed, tier, obligation=''):
                                      'harness runs', traceback.format_exc()[-600:], cases)
                         if r:
                             return r
+    # transactions committed WHILE the pack runs are transactions after T too: a commit from another
+    # thread in each phase of the packer (deterministic windows, shared with the C08 harness)
+    from . import c08
+    for which in ('gc', 'copy-to-packtime', 'catch-up'):
+        cases += 1
+        r = c08.window(which, cases)
+        if r:
+            return r
+    with Clock() as clock:
         rnd = random.Random(seed)
         for n in range(12 if tier == 'quick' else 120):
             steps = random_history(rnd)
